@@ -765,6 +765,18 @@ static std::vector<Entry> const& table()
     return t;
 }
 
+// participation in overload resolution (op "constraints")
+template <typename T, typename D> concept e_round_ok = requires(D d) { ec::round<T>(d); };
+template <typename T, typename D> concept e_floor_ok = requires(D d) { ec::floor<T>(d); };
+template <typename T, typename D> concept e_ceil_ok  = requires(D d) { ec::ceil<T>(d); };
+template <typename T, typename D> concept e_cast_ok  = requires(D d) { ec::duration_cast<T>(d); };
+template <typename D> concept e_abs_ok               = requires(D d) { ec::abs(d); };
+template <typename T, typename D> concept s_round_ok = requires(D d) { sc::round<T>(d); };
+template <typename T, typename D> concept s_floor_ok = requires(D d) { sc::floor<T>(d); };
+template <typename T, typename D> concept s_ceil_ok  = requires(D d) { sc::ceil<T>(d); };
+template <typename T, typename D> concept s_cast_ok  = requires(D d) { sc::duration_cast<T>(d); };
+template <typename D> concept s_abs_ok               = requires(D d) { sc::abs(d); };
+
 // the named duration types: period, signedness and the minimum width [time.syn] requires
 template <typename E, typename S, int Bits>
 static void typedef_row(Out& impl, Out& ref)
@@ -829,6 +841,30 @@ bool vh::run_case(std::string const& op, Toks& in, Out& impl, Out& ref)
         row.template operator()<9223372036854775807LL, -9223372036854775807LL>();
         row.template operator()<-9223372036854775807LL, 3>();
         row.template operator()<1001, -30000>();
+        return true;
+    }
+    if (op == "constraints") {
+        // which instantiations take part in overload resolution ([time.duration.cast], [time.duration.alg]):
+        // round only for a non-floating target; floor / ceil / duration_cast for any duration target, not for a
+        // non-duration; abs only for a signed representation
+        using EMS = ec::milliseconds;
+        using SMS = sc::milliseconds;
+        using ETP = ec::time_point<ec::system_clock, EMS>;
+        using STP = sc::time_point<sc::system_clock, SMS>;
+        impl.tok("ok")
+            .b(e_round_ok<ec::duration<double>, EMS>).b(e_round_ok<ec::seconds, EMS>)
+            .b(e_round_ok<ec::duration<double>, ETP>).b(e_round_ok<ec::seconds, ETP>)
+            .b(e_floor_ok<ec::duration<double>, EMS>).b(e_ceil_ok<ec::duration<double>, EMS>)
+            .b(e_cast_ok<ec::duration<double>, EMS>)
+            .b(e_floor_ok<long, EMS>).b(e_round_ok<long, EMS>).b(e_cast_ok<long, EMS>)
+            .b(e_abs_ok<ec::duration<unsigned>>).b(e_abs_ok<ec::duration<double>>).b(e_abs_ok<EMS>);
+        ref.tok("ok")
+            .b(s_round_ok<sc::duration<double>, SMS>).b(s_round_ok<sc::seconds, SMS>)
+            .b(s_round_ok<sc::duration<double>, STP>).b(s_round_ok<sc::seconds, STP>)
+            .b(s_floor_ok<sc::duration<double>, SMS>).b(s_ceil_ok<sc::duration<double>, SMS>)
+            .b(s_cast_ok<sc::duration<double>, SMS>)
+            .b(s_floor_ok<long, SMS>).b(s_round_ok<long, SMS>).b(s_cast_ok<long, SMS>)
+            .b(s_abs_ok<sc::duration<unsigned>>).b(s_abs_ok<sc::duration<double>>).b(s_abs_ok<SMS>);
         return true;
     }
     if (op == "typedef_bits") {
